@@ -126,8 +126,11 @@ def _n_strings(n_letters, max_len):
     return sum(n_letters ** l for l in range(max_len + 1))
 
 
-def shards(tier, seed):
-    M.selftest()
+N_BUNDLES = 32      # the pool recycles workers after 40 tasks; <= 40 shards keeps every worker below that
+
+
+def sub_shards(tier, seed):
+    """fine-grained slices of the space, simplest first (small windows, few rows)"""
     b = bounds(tier, seed)
     out = []
     for name, spec in b['partA'].items():
@@ -135,10 +138,10 @@ def shards(tier, seed):
         for w in spec['windows']:
             for nrows in range(1, spec['max_rows'] + 1):
                 ncases = ns ** nrows
-                nslices = max(1, ncases // 1500)
+                nslices = max(1, ncases // 400)
                 for i in range(nslices):
                     out.append({'part': 'A', 'alphabet': name, 'w': w, 'nrows': nrows, 'max_len': spec['max_len'],
-                                'slice': [i, nslices], 'tier': tier})
+                                'slice': [i, nslices]})
     pb = b['partB']
     ext = pb.get('windows_extension_slice(seed-rotated)', [])
     for w in sorted(set(pb['windows_core']) | set(ext)):
@@ -149,14 +152,24 @@ def shards(tier, seed):
                     continue
                 for nrows in range(1, max_rows + 1):
                     out.append({'part': 'B', 'alphabet': name, 'w': w, 'repr': rep, 'fill': fill, 'nrows': nrows,
-                                'lengths': 'full', 'tier': tier})
+                                'lengths': 'full'})
                 if tier == 'thorough' and (rep, fill) in (('fresh', 'cyclic'), ('fresh', 'quad'), ('view', 'cyclic')):
                     out.append({'part': 'B', 'alphabet': name, 'w': w, 'repr': rep, 'fill': fill, 'nrows': 4,
-                                'lengths': 'narrow', 'tier': tier})
-    # simplest first (small windows, few rows), so that the first exemplar of a failure group is a small case
-    out.sort(key=lambda d: (d['w'], d['nrows'], d['part'], d['alphabet'], d.get('repr', ''), d.get('fill', ''),
+                                'lengths': 'narrow'})
+    out.sort(key=lambda d: (d['nrows'], d['w'], d['part'], d['alphabet'], d.get('repr', ''), d.get('fill', ''),
                             d.get('slice', [0])[0]))
     return out
+
+
+def shards(tier, seed):
+    """N_BUNDLES shards of similar cost: the sub-shards, sorted simplest first (neighbours cost about the same), are
+    dealt round-robin; each shard runs its sub-shards in that order, so the first exemplar of a failure is small."""
+    M.selftest()
+    subs = sub_shards(tier, seed)
+    bundles = [{'bundle': i, 'of': N_BUNDLES, 'tier': tier, 'subs': []} for i in range(N_BUNDLES)]
+    for i, d in enumerate(subs):
+        bundles[i % N_BUNDLES]['subs'].append(d)
+    return [b for b in bundles if b['subs']]
 
 
 # --------------------------------------------------------------------------- case generation
@@ -575,12 +588,13 @@ def check_case(res, st, alpha_name, rows, w, rep, only_unit=None):
 
 def run_shard(desc, deadline):
     res = Result()
-    st = ShardState()
-    for n, (rows, rep) in enumerate(cases_of_shard(desc)):
-        if n % 16 == 0 and deadline.expired():
-            res.capped = True
-            break
-        check_case(res, st, desc['alphabet'], rows, desc['w'], rep)
+    for sub in desc['subs']:
+        st = ShardState()
+        for n, (rows, rep) in enumerate(cases_of_shard(sub)):
+            if n % 16 == 0 and deadline.expired():
+                res.capped = True
+                return res
+            check_case(res, st, sub['alphabet'], rows, sub['w'], rep)
     return res
 
 
